@@ -477,6 +477,42 @@ impl<'tcx> Cx<'tcx> {
         J::obj(vec![("k", J::s("bytes")), ("hex", J::Str(hex(&bytes)))])
     }
 
+    /// Bytes behind a `&[u8]` / `&str` fat pointer stored at `off` in allocation `alloc_id`.
+    fn follow_fat(&self, alloc_id: mir::interpret::AllocId, off: u64) -> Option<Vec<u8>> {
+        if let Some(GlobalAlloc::Memory(m)) = self.tcx.try_get_global_alloc(alloc_id) {
+            let a = m.inner();
+            let psz = self.tcx.data_layout.pointer_size().bytes();
+            if off + 2 * psz <= a.len() as u64 {
+                let target = a
+                    .provenance()
+                    .ptrs()
+                    .iter()
+                    .find(|(o, _)| o.bytes() == off)
+                    .map(|(_, p)| p.alloc_id())?;
+                let raw = a.inspect_with_uninit_and_ptr_outside_interpreter(off as usize..(off + 2 * psz) as usize);
+                let mut base: u64 = 0;
+                let mut len: u64 = 0;
+                for i in 0..psz as usize {
+                    base |= (raw[i] as u64) << (8 * i);
+                    len |= (raw[psz as usize + i] as u64) << (8 * i);
+                }
+                return self.alloc_bytes(target, base, Some(len));
+            }
+        }
+        None
+    }
+
+    fn is_fat_u8(&self, ty: Ty<'tcx>) -> bool {
+        match ty.kind() {
+            ty::Ref(_, inner, _) => match inner.kind() {
+                ty::Slice(e) => *e == self.tcx.types.u8,
+                ty::Str => true,
+                _ => false,
+            },
+            _ => false,
+        }
+    }
+
     fn const_value_j(&self, val: ConstValue, ty: Ty<'tcx>) -> J {
         match val {
             ConstValue::ZeroSized => J::obj(vec![("k", J::s("zst"))]),
@@ -491,6 +527,14 @@ impl<'tcx> Cx<'tcx> {
                 // e.g. &[u8; N] or &'static T: expose pointee bytes when it is plain memory
                 let (prov, off) = ptr.into_raw_parts();
                 let alloc_id = prov.alloc_id();
+                // `&&str` / `&&[u8]` (a promoted reference to a string constant, e.g. the right-hand side of `s != "lit"`)
+                if let ty::Ref(_, inner, _) = ty.kind() {
+                    if self.is_fat_u8(*inner) {
+                        if let Some(b) = self.follow_fat(alloc_id, off.bytes()) {
+                            return self.bytes_j(b, *inner);
+                        }
+                    }
+                }
                 let want_len = match ty.kind() {
                     ty::Ref(_, inner, _) => match inner.kind() {
                         ty::Array(_, n) => n.try_to_target_usize(self.tcx),
